@@ -3,7 +3,9 @@
    [trace (init t0) evs] is what the model of BuildClient.Run and of its
    executor goroutine produces for an arbitrary clock reading t0 at
    construction and an ARBITRARY list of events: Run calls with any
-   shutdown flag, clock reading, readiness result, scheduler reply (execute /
+   shutdown flag (context cancelled before the Run) and late-cancellation
+   flag (context cancelled during the Run, between its two readings of
+   ctx.Err()), clock reading, readiness result, scheduler reply (execute /
    idle / no change / RPC error / invalid timestamp / invalid execute request
    / unknown desired state), and executor steps (progress update, finish,
    close) between Runs, while Run sleeps in its select, and while the
@@ -42,15 +44,21 @@ Theorem idle_after_failure : forall t0 evs,
 Proof. exact idle_after_failure_holds. Qed.
 Print Assumptions idle_after_failure.
 
-(* Every request sent by a Run that saw the cancelled context has
-   PreferBeingIdle, and is sent on a live context. *)
+(* From the moment shutdown began every request has PreferBeingIdle and is
+   sent on a live context: the request of a Run that saw the cancelled context
+   at the top, the request of a Run during which the context got cancelled
+   before the request was built (while CheckReadiness ran, or while Run slept
+   in its select: late cancellation), and every request of every later Run,
+   whatever the later events say about the context (the monitor remembers
+   that shutdown began; the model's context stays cancelled). *)
 Theorem shutdown_never_solicits : forall t0 evs,
   trace_ok chk_shutdown (trace (init t0) evs) = true.
 Proof. exact shutdown_holds. Qed.
 Print Assumptions shutdown_never_solicits.
 
 (* LaunchWorkerThread's termination rule: whenever Run returns mayTerminate
-   during shutdown, schedulerMayThinkExecutingUntil is nil or in the past. *)
+   after shutdown began (in this Run, late cancellation included, or earlier),
+   schedulerMayThinkExecutingUntil is nil or in the past. *)
 Theorem terminate_only_when_safe : forall t0 evs,
   trace_ok chk_terminate (trace (init t0) evs) = true.
 Proof. exact terminate_holds. Qed.
@@ -61,6 +69,25 @@ Theorem client_trace_ok : forall t0 evs,
   trace_ok chk_all (trace (init t0) evs) = true.
 Proof. exact client_trace_ok_holds. Qed.
 Print Assumptions client_trace_ok.
+
+(* Safe shutdown without the monitor: take any history and any Run in it for
+   which the context was cancelled by the time the request was built (before
+   the Run: r_shutdown; or during it: r_late).  In that Run and in every later
+   step, every SynchronizeRequest has PreferBeingIdle = true and goes out on a
+   live context - also if the later events no longer say "cancelled". *)
+Theorem safe_shutdown : forall t0 pre r post,
+  r_shutdown r || r_late r = true ->
+  all_syncs_idle (skipn (List.length pre) (trace (init t0) (pre ++ ERun r :: post))) = true.
+Proof. exact safe_shutdown_holds. Qed.
+Print Assumptions safe_shutdown.
+
+(* The same for one Run from an arbitrary (not necessarily reachable) state:
+   if the second reading of ctx.Err() sees the cancelled context, the request
+   asks to be left idle and is sent on a live context. *)
+Theorem late_cancel_prefers_idle : forall s r,
+  sd_sync s r = true -> syncs_idle (snd (run_step s r)) = true.
+Proof. exact run_step_syncs_idle. Qed.
+Print Assumptions late_cancel_prefers_idle.
 
 (* The observer: a second monitor that ignores the client's private fields and
    derives "the scheduler may think this worker is executing until T" from the
@@ -108,7 +135,9 @@ Print Assumptions channel_bounded.
 
 (* ---- non-vacuity ------------------------------------------------------------------ *)
 
-Definition rn (sd : bool) (now : Z) (rp : reply) : event := ERun (mkRin sd now true [] [] rp).
+Definition rn (sd : bool) (now : Z) (rp : reply) : event := ERun (mkRin sd false now true [] [] rp).
+(* a Run during which the context is cancelled after the termination test *)
+Definition rn_late (now : Z) (rp : reply) : event := ERun (mkRin false true now true [] [] rp).
 
 (* A history in which an executor is started, reports progress, fails, the
    failure is reported with PreferBeingIdle, the scheduler hands out a second
@@ -216,4 +245,66 @@ Example soliciting_while_maybe_executing_rejected :
       mkItem (rn false 6 RpcErr) [OReady; OSync RIdle false true; ORet false ESync]
              (mkObs (Some 60000) 0 false false) ]
   = "solicits-work-while-scheduler-may-think-executing"%string.
+Proof. vm_compute. reflexivity. Qed.
+
+(* Late cancellation.  The context is cancelled while an idle worker's
+   CheckReadiness runs (first Run: the request still goes out, asking to be
+   left idle, although the termination test at the top saw a live context and
+   readiness succeeded); the scheduler nevertheless hands out an action; the
+   next Run's events do not repeat the flag, yet the request (now executing)
+   asks to be left idle because the context stays cancelled.  A second
+   history: cancelled while an executing worker sleeps in the select. *)
+Example demo_late_cancel_idle :
+  map i_outs (trace (init 0)
+    [ rn_late 0 (Reply (Some 10) (DExec 1));
+      rn false 10 (Reply (Some 20) DIdle);
+      rn false 20 RpcErr ]) =
+  [ [OReady; OSync RIdle true true; OStart 0 1 false; ORet false ENone];
+    [OTimer 0 true; OSync (RExec 1 StStarted) true true; OCancel 0; OExit 0; ORet true ENone];
+    [ORet true ENone] ]%N.
+Proof. vm_compute. reflexivity. Qed.
+
+Example demo_late_cancel_executing :
+  map i_outs (trace (init 0)
+    [ rn false 0 (Reply (Some 10) (DExec 1));
+      ERun (mkRin false true 5 true [XUpdate 2] [] (Reply (Some 20) DNone)) ]) =
+  [ [OReady; OSync RIdle false true; OStart 0 1 false; ORet false ENone];
+    [OTimer 5 false; OX (XUpdate 2) XSent; OSync (RExec 1 (StUpd 2)) true true; ORet false ENone] ]%N.
+Proof. vm_compute. reflexivity. Qed.
+
+(* The hypothesis of safe_shutdown is satisfiable, and without it the
+   conclusion fails (so it says something). *)
+Example safe_shutdown_nonvacuous :
+  all_syncs_idle (trace (init 0) [rn_late 0 (Reply (Some 10) DNone); rn false 10 RpcErr]) = true
+  /\ all_syncs_idle (trace (init 0) [rn false 0 (Reply (Some 10) DNone)]) = false.
+Proof. vm_compute. split; reflexivity. Qed.
+
+(* What "sample ctx.Err() once at the top of Run" would produce: the request
+   of the Run during which the context got cancelled is computed as in normal
+   operation.  Rejected - idle and executing, and also in the NEXT event if that
+   one does not repeat the flag (once begun, shutdown stays begun). *)
+Example late_cancel_soliciting_rejected :
+  chk_trace chk_all mon_init
+    [ bad_item (rn_late 50 RpcErr) [OReady; OSync RIdle false false; ORet false ESync] ]
+  = "blocking-synchronize-after-shutdown-began"%string.
+Proof. vm_compute. reflexivity. Qed.
+
+Example late_cancel_blocking_while_executing_rejected :
+  chk_trace chk_all mon_init
+    [ bad_item (rn false 0 (Reply (Some 10) (DExec 1))) [OReady; OSync RIdle false true; OStart 0 1 false; ORet false ENone];
+      bad_item (rn_late 5 (Reply (Some 20) DNone)) [OTimer 5 true; OSync (RExec 1 StStarted) false true; ORet false ENone] ]
+  = "blocking-synchronize-after-shutdown-began"%string.
+Proof. vm_compute. reflexivity. Qed.
+
+Example shutdown_stays_begun :
+  chk_trace chk_all mon_init
+    [ bad_item (rn_late 50 RpcErr) [OReady; OSync RIdle true true; ORet false ESync];
+      bad_item (rn false 60 RpcErr) [OReady; OSync RIdle false true; ORet false ESync] ]
+  = "blocking-synchronize-after-shutdown-began"%string.
+Proof. vm_compute. reflexivity. Qed.
+
+Example late_cancel_on_cancelled_context_rejected :
+  chk_trace chk_all mon_init
+    [ bad_item (rn_late 50 RpcErr) [OReady; OSync RIdle true false; ORet false ESync] ]
+  = "synchronize-with-cancelled-context"%string.
 Proof. vm_compute. reflexivity. Qed.
